@@ -31,6 +31,26 @@ pub fn last_idle() -> bool {
     LAST_IDLE.with(|c| c.get())
 }
 
+thread_local! {
+    static LAST_KIND: Cell<u8> = const { Cell::new(0) };
+}
+
+/// Kinds of work a compaction step can perform.
+pub const KIND_NONE: u8 = 0;
+pub const KIND_TRIVIAL_MOVE: u8 = 1;
+pub const KIND_MERGE: u8 = 2;
+pub const KIND_GARBAGE_COLLECTION: u8 = 3;
+
+/// Record which kind of compaction the current thread last performed.
+pub fn set_last_kind(kind: u8) {
+    LAST_KIND.with(|c| c.set(kind));
+}
+
+/// The kind of compaction the current thread last performed.
+pub fn last_kind() -> u8 {
+    LAST_KIND.with(|c| c.get())
+}
+
 /// Number of store threads currently parked on one of the store's condition variables.
 pub static PARKED: AtomicU64 = AtomicU64::new(0);
 /// Incremented on every notify of one of the store's condition variables.
